@@ -38,6 +38,27 @@ CLAIMED = {
    note="Trusted: MIRSem.tla as transcription of MIR.md; sampled by TLC simulation, not exhaustive.",
    technique="TLA+ abstract machine as oracle for MIR_link's simplifier/inliner; TLC behaviours replayed through the interpreter",
    design="DESIGN.md §4 C04"),
+ "C15": dict(level="model_checking",
+   text="TLC evaluates Verdict() of spec/MIRCheck.tla, written from MIR.md and not from insn_descs, on the complete table: every documented "
+        "opcode x operand position x 46 operand kinds, arity, ret vs result types, call/inline/jcall vs 8 prototypes incl. block args and "
+        "vararg tail, overflow-branch/va_start/jret rules, register and function declarations (28k rows), and every transition of the MIRApi "
+        "construction-call protocol graph. Each row is built through the real API in a forked child with a recording error function; "
+        "accept/reject is compared exactly, the error code against the set the violated rules allow; every accepted well-formed row is loaded, "
+        "linked and, if executable in isolation, interpreted; a dead child is a violation. Thorough repeats the rows through MIR_scan_string "
+        "and under ASan/UBSan.",
+   note="Exhaustive over the stated alphabet with the other operand positions valid (single-fault rows; ret and call also pairs). Rows where "
+        "MIR.md is silent are replayed and counted, never alarmed on except for a crash while building. Trusted: TLC, harness/c15_check.c row "
+        "construction, row_line/judge in c15.py.",
+   technique="TLA+ function-table spec evaluated by TLC (split over JVMs) + BFS transition emission for the API protocol; replay into the API",
+   design="DESIGN.md §4 C15, §3.2, §3.4"),
+ "C20": dict(level="model_checking",
+   text="Programs and their well-definedness come from MIRProg.tla/MIRSem.tla restricted to functions with at most one result; every well-defined "
+        "program is translated by MIR_module2c (must terminate), compiled by gcc (must be accepted), run, and its result, caller-owned memory and "
+        "external-call log compared with MIR_interp (and the spec).",
+   note="Translation compiled with gcc -O0 -fwrapv -fno-strict-aliasing so that C-level signed-overflow UB in the emitted code is not exploited; "
+        "sampled by TLC simulation.",
+   technique="TLA+ abstract machine + program constructor; TLC behaviours replayed through mir2c+gcc vs the interpreter",
+   design="DESIGN.md §4 C20"),
 }
 NOT_YET = "not claimed yet: the specification/binding for this property is still under construction in this round (DESIGN.md §7 order)"
 
